@@ -39,6 +39,8 @@ fn alphabet(property: &str) -> (Idx, Vec<Op>) {
             Op::Update(2, 6),  // name := n0
             Op::Update(2, 9),  // several fields + contested name
             Op::Update(2, 10), // tuple := (10,1)
+            Op::Update(2, 2),  // only the non-leading component of (age, opt): opt := null
+            Op::Update(1, 17), // only the non-leading component of (opt, opt2): opt2 := 7
             Op::Update(2, 12), // codes := [q,x]
             Op::Update(1, 13), // codes := [] (releases x)
             Op::Update(1, 0),  // age := 40 (releases tuple)
